@@ -75,6 +75,10 @@ def gen_case(rng):
                     step = rng.choice([1, 2, 10])
                     ops.append({"op": "write", "g": g, "start": nxt[g], "n": n, "step": step,
                                 "chunks": rng.choice([1, 2, 4]), "commits": rng.choice(["each", "end", "auto"])})
+                    if nxt[g] == 100000 and rng.random() < 0.4:
+                        # a long-lived writer: opened before the threads start, it writes and commits while
+                        # other threads delete / read / collect on the same channels
+                        ops[-1]["pre"] = True
                     nxt[g] += rng.choice([n * step, n * step + 1, 1000])
                     continue
             if x < 0.6:
@@ -159,7 +163,7 @@ def gen_inject_scenario(rng):
         start, n, step = 100 + 1000 * i, rng.randrange(4, 11), rng.choice([1, 5, 10])
         setup.append({"op": "write", "g": 1, "start": start, "n": n, "step": step, "chunks": 1, "commits": "end"})
         doms.append((start, n, step))
-    kind = rng.choice(["gc_vs_del", "gc_vs_del", "gc_vs_del", "del_vs_write", "write_vs_del", "del_vs_del", "gc_vs_write", "del_vs_gc",
+    kind = rng.choice(["gc_vs_del", "gc_vs_del", "gc_vs_del", "del_vs_write", "del_vs_write", "write_vs_del", "del_vs_del", "gc_vs_write", "del_vs_gc",
                        "gc_vs_read", "gc_vs_read", "delidx_vs_write_inside", "delidxonly_vs_datawrite", "delidxonly_vs_datawrite"])
     def rdel():
         s0, n, step = rng.choice(doms)
@@ -169,6 +173,10 @@ def gen_inject_scenario(rng):
         return {"op": "delete", "g": 1, "a": a, "b": b, "index": rng.random() < 0.25}
     wr = {"op": "write", "g": 1, "start": 100000, "n": rng.randrange(1, 6), "step": rng.choice([1, 10]),
           "chunks": rng.choice([1, 2]), "commits": rng.choice(["each", "end", "auto"])}
+    if kind in ("del_vs_write", "write_vs_del", "gc_vs_write") and rng.random() < 0.6:
+        wr["pre"] = True         # the writer is already open when the other thread starts (DeleteTimeRange holds the
+        wr["chunks"] = rng.choice([1, 2, 3])     # database lock, so a writer can only commit inside a delete if it was
+        wr["n"] = max(wr["n"], wr["chunks"])     # opened before it)
     pre = [rdel()] if kind in ("gc_vs_del", "gc_vs_write", "del_vs_gc", "gc_vs_read") else []
     if kind == "gc_vs_read" and rng.random() < 0.6:
         pre.append(rdel())
